@@ -114,7 +114,8 @@ def run_pack(pid: str, tier: str, check: Callable[[Ctx], None], *, proj: Optiona
         check(ctx)
         for rid, floor in ctx.floors.items():
             n = sum(1 for o in ctx.obligations if o.rule == rid)
-            if n < floor:
+            nfail = sum(1 for o in ctx.obligations if o.rule == rid and o.status == 'fail')
+            if n < floor and nfail == 0:
                 raise AnalysisError(f'rule {rid}: {n} instances analysed, floor is {floor} '
                                     f'(the rule no longer binds to the code it was confirmed on)')
         res['ctx'] = ctx
